@@ -211,6 +211,7 @@ def main(argv=None):
   failed = []
   labels_now = set()
   disagreements = []
+  k_unsat = set()
   for o, r in zip(all_obs, results):
     solver_time += r.get("time", 0.0)
     labels_now.add(o["label"])
@@ -219,10 +220,14 @@ def main(argv=None):
       disagreements.append(o["label"])
     if r["status"] == "unsat":
       if is_k:
-        notes.append(f"known-finding obligation now discharges (stale entry?): {o['label']}")
+        k_unsat.add(o["label"])
+        continue
       counted += 1
       n_discharged += 1
       by_backend[r["backend"]] = by_backend.get(r["backend"], 0) + 1
+    elif r["status"] != "unsat" and o["kind"] == "model-pre":
+      counted += 1
+      undecided.append(f"{o['label']}: side condition of the engine's model not established ({r['status']})")
     elif r["status"] == "sat":
       f = match_known(known, prop, "obligation", o) if is_k else None
       if f is not None:
@@ -242,6 +247,8 @@ def main(argv=None):
         failed.append((o, r, "regressed"))
       else:
         undecided.append(f"{o['label']}: solver {r['status']} ({r.get('detail', '')})")
+  for lab in sorted(k_unsat - {k["label"] for k in kf_obligations}):
+    notes.append(f"known-finding obligation discharges on every path (stale known_findings entry?): {lab}")
   missing = sorted(l for l in baseline if l not in labels_now)
   if missing and not args.only:
     undecided.append(f"{len(missing)} baseline obligation(s) no longer generated, e.g. {missing[0]}")
